@@ -126,6 +126,28 @@ type st struct{ n int }
 
 func (r st) add(x int) int { return r.n + x }
 
+// defined (named) types and indirectly mutable state, as operands for type- and purity-sensitive rules
+type myStr string
+type myInts []int
+type myMap map[int]string
+type myArr [3]int
+
+type myErr struct{}
+
+func (myErr) Error() string { return "e" }
+
+type wr struct {
+	err error
+	buf []int
+}
+
+func (w *wr) flush() { w.err = myErr{}; w.buf = []int{1} }
+func (w *wr) peek() int { return len(w.buf) }
+
+var gxs []int
+
+func setG() { gxs = []int{1} }
+
 func run(f func(in) interface{}, i in) (out string) {
 	logbuf = logbuf[:0]
 	cnt = 0
@@ -196,11 +218,13 @@ func main() {
 `
 
 const unpack = "a, b, c, u, v, p, q, s, t, k, l, xs, bs, tm := i.A, i.B, i.C, i.U, i.V, pf(i.P), pf(i.Q), i.S, i.T, i.K, i.L, i.XS, []byte(i.BS), time.Unix(0, i.TM).UTC()\n" +
-	"\t_, _, _, _, _, _, _, _, _, _, _, _, _, _ = a, b, c, u, v, p, q, s, t, k, l, xs, bs, tm\n"
+	"\t_, _, _, _, _, _, _, _, _, _, _, _, _, _ = a, b, c, u, v, p, q, s, t, k, l, xs, bs, tm\n" +
+	"\tms, mi, mm, ma := myStr(s), myInts(xs), myMap{0: s, 1: t}, myArr{a, b, c}\n\tpa, w := &ma, &wr{}\n\tgxs = nil\n" +
+	"\t_, _, _, _, _, _ = ms, mi, mm, ma, pa, w\n"
 
 func caseFunc(kind, body string) string {
 	if kind == "stmts" {
-		return "func(i in) interface{} {\n\t" + unpack + "\t" + body + "\n\treturn fmt.Sprint(a, b, c, u, v, p, q, s, t, k, l, xs, bs)\n}"
+		return "func(i in) interface{} {\n\t" + unpack + "\t" + body + "\n\treturn fmt.Sprint(a, b, c, u, v, p, q, s, t, k, l, xs, bs, ms, mi, mm, ma, *w, gxs)\n}"
 	}
 	return "func(i in) interface{} {\n\t" + unpack + "\treturn " + body + "\n}"
 }
@@ -293,6 +317,16 @@ func Grid(r *rand.Rand, text string, max int) []Input {
 	used := map[string]bool{}
 	for _, id := range identRe.FindAllString(text, -1) {
 		used[id] = true
+	}
+	// derived operands vary with the inputs they are built from
+	if used["ms"] || used["mm"] {
+		used["s"], used["t"] = true, true
+	}
+	if used["mi"] {
+		used["xs"] = true
+	}
+	if used["ma"] || used["pa"] {
+		used["a"], used["b"], used["c"] = true, true, true
 	}
 	lits := map[int]bool{0: true, 1: true}
 	for _, m := range intLitRe.FindAllString(text, -1) {
